@@ -57,7 +57,12 @@ theorem lines_table_partial (q : Quote) (t : List Nat) (h : Verbatim q t) :
   have hsolid : Solid l'.adv.adv.cur := by rw [hcureof]; exact ⟨by decide, by decide, by decide⟩
   rw [lexAll_succ, nextToken_later _ hbl2 hsolid]
   have hd2 : dispatchToken l'.adv.adv = parseEOF l'.adv.adv := by
-    unfold dispatchToken; simp [hcureof, runeEOF]
+    unfold dispatchToken
+    have hnot : ¬ (l'.cursor + 1 + 1 < l'.src.size) := by
+      have h1 : l'.adv.adv.cursor = l'.cursor + 1 + 1 := rfl
+      have h2 : l'.adv.adv.src.size = l'.src.size := rfl
+      omega
+    simp [hcureof, runeEOF, hnot]
   rw [hd2]
   -- the line table after the literal
   have hl2 : l'.adv.adv.lines = #[{ indents := 0, startIdx := 0 }] ++ ((lineStarts 1 t).map scannedLine).toArray := by
